@@ -158,6 +158,12 @@ def round_record(ctx: Ctx, rid: int, rng: random.Random, kind: str) -> dict | No
             sketch = cb.HalfDisk(P([0, 0, 0]), P([1, 0, 0]), V([0, 0, 1]))
         elif kind == "oval":
             sketch = cb.Oval(P([0, 0, 0]), P([2, 0, 0]), V([0, 0, 1]), 1.0 * s)
+        elif kind in ("qspline", "hspline", "fspline"):
+            # spline-round sketches with circular parameters (no straight parts, equal radii): the outer surface is the
+            # circle through the two corner points
+            from classy_blocks.construct.flat.sketches import spline_round as sr
+            cls = {"qspline": sr.QuarterSplineDisk, "hspline": sr.HalfSplineDisk, "fspline": sr.SplineDisk}[kind]
+            sketch = cls(P([0, 0, 0]), P([1.5, 0, 0]), P([0, 1.5, 0]), 0, 0)
         else:
             raise ValueError(kind)
     except Exception as err:  # pylint: disable=broad-except
@@ -187,6 +193,12 @@ def round_record(ctx: Ctx, rid: int, rng: random.Random, kind: str) -> dict | No
             def on_outer(p):
                 t = max(0.0, min(1.0, vdot(vsub(p, c1), axis) / vdot(axis, axis)))
                 return abs(vdist(p, vadd(c1, vmul(axis, t))) - radius) < tol
+        elif kind in ("qspline", "hspline", "fspline"):
+            c0 = list(sketch.center)
+            radius = 1.5 * s
+
+            def on_outer(p):
+                return abs(vdist(p, c0) - radius) < tol
         else:
             c0 = list(sketch.center)
             radius = sketch.radius
@@ -219,7 +231,7 @@ def run(ctx: Ctx) -> None:
             recs.append(r)
             if len(set(dims)) >= 2:
                 ctx.nontrivial.add(f"{kind}:{dims}")
-    for kind in ["cylinder", "semicylinder", "frustum", "elbow", "onecore", "fourcore", "halfdisk", "oval"]:
+    for kind in ["cylinder", "semicylinder", "frustum", "elbow", "onecore", "fourcore", "halfdisk", "oval", "qspline", "hspline", "fspline"]:
         for _ in range(1 if ctx.tier == "quick" else 4):
             r = round_record(ctx, len(recs) + 1, rng, kind)
             if r is not None:
